@@ -54,12 +54,12 @@ const (
 type LengthMode int
 
 const (
-	LenDirect   LengthMode = iota // correct, direct
-	LenIndirect                   // correct, in an indirect object of its own
-	LenMissing                    // no /Length
-	LenWrong                      // direct, off by Op.LengthDelta (non-zero)
-	LenUnresolvable               // reference that does not resolve to an integer
-	LenNegative                   // direct, negative
+	LenDirect       LengthMode = iota // correct, direct
+	LenIndirect                       // correct, in an indirect object of its own
+	LenMissing                        // no /Length
+	LenWrong                          // direct, off by Op.LengthDelta (non-zero)
+	LenUnresolvable                   // reference that does not resolve to an integer
+	LenNegative                       // direct, negative
 )
 
 func (m LengthMode) String() string {
